@@ -83,4 +83,11 @@ theorem schedule_noop_or_dry_run_silent (T : Rip.Compaction.Thread) (fresh : Nat
   · simp [h]
   · by_cases hp : (Rip.Compaction.plan T stride maxNew).isEmpty <;> simp [h, hp]
 
+/-- the planner functions that spawn compaction jobs (`compaction_auto_schedule_spawn_job_v1`,
+`compaction_auto_spawn_job_v1`) return from their dry-run gate before anything that appends a frame
+(the in-flight check of the scheduler appends a decision frame, so it must come after the gate) -/
+theorem gen_dry_run_gate_precedes_appends :
+    (Rip.Gen.orderOf 45).head? = some .dryRunGate ∧ (Rip.Gen.orderOf 46).head? = some .dryRunGate ∧
+    (Rip.Gen.orderOf 45).contains .appendFrame = true := by decide
+
 end Rip.Props.C02
